@@ -217,9 +217,9 @@ theorem setMany_wIdx (x y : Lab) (qs : List Nat) (a : Nat) :
     exact (Lab.wIdx_of_not_mem y a h).symm
 
 /-- the partial trace of the channel model as a sum over local indices. -/
-theorem ptrace_eq_sum_idx {qs : List Nat} (hn : qs.Nodup) (ρ : DM α) (x y : Lab) :
-    ptrace qs ρ x y = ∑ a ∈ range (2 ^ qs.length), ρ (Lab.wIdx x qs a) (Lab.wIdx y qs a) := by
-  unfold ptrace
+theorem ptraceSet_eq_sum_idx {qs : List Nat} (hn : qs.Nodup) (ρ : DM α) (x y : Lab) :
+    ptraceSet qs ρ x y = ∑ a ∈ range (2 ^ qs.length), ρ (Lab.wIdx x qs a) (Lab.wIdx y qs a) := by
+  unfold ptraceSet
   rw [sumOver_eq_sum' hn]
   exact sum_congr rfl (fun a _ => by rw [setMany_wIdx])
 
@@ -253,7 +253,7 @@ theorem pauli_twirl (conj : α →+* α) (I : α) (hI : I * I = -1) (hcI : conj 
     (qs : List Nat) (hn : qs.Nodup) (ρ : DM α) (x y : Lab) :
     ((pauliCodes qs.length).map
         (fun c => applyGateDM conj { mat := pauliStringMat I c, targets := qs } ρ x y)).sum
-      = 2 ^ qs.length * (if qs.all (fun q => x q == y q) then ptrace qs ρ x y else 0) := by
+      = 2 ^ qs.length * (if qs.all (fun q => x q == y q) then ptraceSet qs ρ x y else 0) := by
   have hx := Lab.idx_lt qs x
   have hy := Lab.idx_lt qs y
   -- sum form of every term, then exchange the list sum with the two index sums
@@ -290,7 +290,7 @@ theorem pauli_twirl (conj : α →+* α) (I : α) (hI : I * I = -1) (hcI : conj 
   rw [sum_congr rfl e2]
   by_cases e : Lab.idx qs x = Lab.idx qs y
   · have hall : qs.all (fun q => x q == y q) = true := (all_eq_iff_idx qs x y).mpr e
-    simp only [e, if_true, hall, ptrace_eq_sum_idx hn, mul_sum]
+    simp only [e, if_true, hall, ptraceSet_eq_sum_idx hn, mul_sum]
   · have hall : ¬ (qs.all (fun q => x q == y q) = true) := fun h => e ((all_eq_iff_idx qs x y).mp h)
     simp [e, hall]
 
@@ -339,7 +339,7 @@ theorem trN_depolFast (c0 w : α) (qs : List Nat) (hn : qs.Nodup) (h1 : c0 + 2 ^
     intro a _
     have hall : qs.all (fun q => Lab.wIdx z qs a q == Lab.wIdx z qs a q) = true := by
       simp [List.all_eq_true]
-    simp only [depolFast, hall, if_true, ptrace_eq_sum_idx hn, Lab.wIdx_wIdx]
+    simp only [depolFast, hall, if_true, ptraceSet_eq_sum_idx hn, Lab.wIdx_wIdx]
   rw [sum_congr rfl e, Finset.sum_add_distrib, ← mul_sum, sum_const, card_range, nsmul_eq_mul,
     Nat.cast_pow, Nat.cast_ofNat]
   linear_combination (∑ b ∈ range (2 ^ qs.length), ρ (Lab.wIdx z qs b) (Lab.wIdx z qs b)) * h1
